@@ -79,7 +79,7 @@ def sel_of(pseudo, tag=None):
 
 def compare(col, doc, sel, text, comp, case, also_root=True):
     """Compare select() (and match() on a detached root) with the reference for one selector."""
-    rctx = R.Ctx(doc.target)
+    rctx = R.Ctx(doc.target, case.get('nsmap') if isinstance(case, dict) else None)
     els = doc.elements()
     exp = [d for d in els if R.match_list(rctx, d, sel)]
     col.count()
@@ -268,7 +268,10 @@ def gen_case(ch, tier):
     if ch.p(0.3):
         sel = [g.complex_for(el, 1, 2)]
         sel[0][-1]['c']['ps'].append(p)
-    return {'tree': recipe, 'sel': sel}, doc
+    nsmap = None
+    if recipe['kind'] in ('xml-api', 'lxml-xml') and ch.p(0.5):
+        nsmap = ch.pick(({'': 'urn:a'}, {'': ''}, {'p': 'urn:a'}, {'': 'urn:none'}))
+    return {'tree': recipe, 'sel': sel, 'nsmap': nsmap}, doc
 
 
 def evaluate(case, doc=None):
@@ -277,7 +280,7 @@ def evaluate(case, doc=None):
     col = common.Collector()
     text = S.render_list(case['sel'])
     try:
-        comp = sv.compile(text)
+        comp = sv.compile(text, case.get('nsmap'))
     except Exception as e:  # noqa: BLE001
         return ('compile-' + type(e).__name__, f'{text!r}: {e!r}'), None
     exp, els = compare(col, doc, case['sel'], text, comp, case)
@@ -323,6 +326,8 @@ def shard(ctx):
         out, info = evaluate(case, doc)
         col.count(2)
         col.classify('random:' + case['tree']['kind'])
+        if case.get('nsmap'):
+            col.classify('random:namespace-map')
         if out:
             col.fail(out[0], case, out[1])
         if info:
